@@ -60,6 +60,8 @@ def replay_trace(run, cid, inp, text):
     stack = [0]; term = None; bad = []; recovering = False; pending_goto = None
     for (ln, col, ch, msg) in parse_trace(text):
         if ch != "PARSE": continue
+        if msg.startswith(("Syntax error", "Success", "Recovery, consuming term")) and (term is None or not stack):
+            bad.append(f"line '{msg[:30]}' is traced but the term it was decided on was never reported as recognized"); break
         if msg.startswith("Recognized "):
             nm = msg[len("Recognized "):].rstrip(" ")
             if nm not in names: bad.append(f"unknown term name {nm!r}"); break
